@@ -30,7 +30,7 @@ def gen_cases(pid, tier, seed, wd):
     for i in range(n):
         cid = "%s_%d_%d" % (pid, seed, i)
         if pid == "C01":
-            c = enginegen.gen_case(rng, cid, dbdir=wd, cancel_p=0.0, restart_p=0.2, rewire_p=0.25, db_p=0.5, verify=True)
+            c = enginegen.gen_case(rng, cid, dbdir=wd, cancel_p=0.15, restart_p=0.25, rewire_p=0.25, db_p=0.6, verify=True)
         elif pid == "C02":
             c = enginegen.gen_case(rng, cid, dbdir=wd, cancel_p=0.1, restart_p=0.12, db_p=0.4, nsteps=(4, 9), repeat_p=0.35)
         elif pid == "C03":
@@ -39,6 +39,8 @@ def gen_cases(pid, tier, seed, wd):
             c = enginegen.gen_case(rng, cid, dbdir=wd, cancel_p=0.55, restart_p=0.2, db_p=0.5, verify=True)
         elif pid == "C06":
             c = enginegen.gen_case(rng, cid, dbdir=None, modes=("det",), cancel_p=0.1, restart_p=0.05)
+        elif pid == "C07" and i % 6 == 5:
+            c = enginegen.gen_cycle_back_case(rng, cid, dbdir=wd)
         elif pid == "C07":
             c = enginegen.gen_case(rng, cid, dbdir=wd, cyclic=(rng.random() < 0.5), rewire_cyclic=True, cancel_p=0.05,
                                    restart_p=0.35, rewire_p=0.6, sigchange_p=0.1, db_p=0.5)
